@@ -318,6 +318,10 @@ func c08History(r *Rec, hI int, steps int) {
 				return k.AddBlacklistPermission(cc, actor, govtypes.PermValue(p))
 			case "rm-bl-acct":
 				return k.RemoveBlacklistedPermission(cc, actor, govtypes.PermValue(p))
+			case "assign": // p is a role id here
+				return k.AssignRoleToAccount(cc, w.addrs[a], p)
+			case "bl-role": // a is a role id here
+				return k.BlacklistRolePermission(cc, uint64(a), govtypes.PermValue(p))
 			}
 			return nil
 		})
@@ -327,6 +331,12 @@ func c08History(r *Rec, hI int, steps int) {
 		}
 		r.Op(fmt.Sprintf("perm %s %d %d", kind, a, p), out)
 	}
+	// a role that blacklists the vote permission: assigning it is the third way to take the permission from a voter who
+	// holds it through a PERSONAL whitelist entry (the blacklist of a role wins)
+	var denyRole uint64
+	withCache(ctxAt(), func(cc sdk.Context) error { denyRole = k.CreateRole(cc, "novote", "d"); return nil })
+	r.Op("perm create-role", fmt.Sprint(denyRole))
+	permOp("bl-role", int(denyRole), permVote)
 	// initial electorate: a seed-dependent subset of accounts may vote; account 0 may also submit
 	permOp("wl-acct", 0, permCreate)
 	nVoters := 2 + r.Rng.Intn(4)
@@ -517,7 +527,7 @@ func c08History(r *Rec, hI int, steps int) {
 				opt = govtypes.VoteOption([]int{0, 5, 9}[r.Rng.Intn(3)])
 			}
 			ctx := ctxAt()
-			holds := govkeeper.CheckIfAllowedPermission(ctx, k, w.addrs[voter], govtypes.PermValue(permVote))
+			holds := permRuleHolds(ctx, k, w.addrs[voter], uint32(permVote))
 			err := withCache(ctx, func(cc sdk.Context) error {
 				_, e := ms.VoteProposal(sdk.WrapSDKContext(cc), govtypes.NewMsgVoteProposal(pid, w.addrs[voter], opt, sdk.ZeroDec()))
 				return e
@@ -583,10 +593,13 @@ func c08History(r *Rec, hI int, steps int) {
 			if a == 0 && r.Rng.Intn(3) != 0 {
 				continue
 			}
-			if r.Rng.Intn(2) == 0 {
+			switch r.Rng.Intn(3) {
+			case 0:
 				permOp("rm-wl-acct", a, permVote)
-			} else {
+			case 1:
 				permOp("bl-acct", a, permVote)
+			default:
+				permOp("assign", a, denyRole)
 			}
 			if len(openIDs) > 0 {
 				ctx = ctxAt()
@@ -596,7 +609,7 @@ func c08History(r *Rec, hI int, steps int) {
 					before = &v
 				}
 				opt := govtypes.VoteOption(1 + r.Rng.Intn(4))
-				holds := govkeeper.CheckIfAllowedPermission(ctx, k, w.addrs[a], govtypes.PermValue(permVote))
+				holds := permRuleHolds(ctx, k, w.addrs[a], uint32(permVote))
 				err := withCache(ctx, func(cc sdk.Context) error {
 					_, e := ms.VoteProposal(sdk.WrapSDKContext(cc), govtypes.NewMsgVoteProposal(pid, w.addrs[a], opt, sdk.ZeroDec()))
 					return e
